@@ -1,11 +1,95 @@
 """C10 — nsqd HTTP API: validation, status codes and equivalence with TCP publish (engine E3)."""
 import os
+import re
+import threading
 from framework import REPO, ROOT
 from props import C09 as e3
 
-TIE = ["Nsq.Tie.ProtoHttp", "Nsq.Tie.ProtoHttpFull", "Nsq.Tie.ConnsStats"]
-PROPS = ["Nsq.Props.C10", "Nsq.Props.C10Full", "Nsq.Props.C10Char"]
-HARNESS = e3.HARNESS + ["e3/audit10_test.go"]
+TIE = ["Nsq.Tie.ProtoHttp", "Nsq.Tie.ProtoHttpFull", "Nsq.Tie.ConnsStats", "Nsq.Tie.HttpShared"]
+PROPS = ["Nsq.Props.C10", "Nsq.Props.C10Full", "Nsq.Props.C10Char", "Nsq.Props.C10Conc"]
+HARNESS = e3.HARNESS + ["e3/audit10_test.go", "e3/concur_nsqd_test.go"]
+
+
+def cc_core(ctx, pkg):
+    """The package-independent part of the concurrency leg (harness/e3/concur_core.go.tmpl) instantiated for
+    package `pkg`; compiled into the real package like every harness file."""
+    p = os.path.join(ctx.work, "concur_core_%s.go" % pkg)
+    with open(os.path.join(ROOT, "harness", "e3", "concur_core.go.tmpl")) as fh:
+        txt = fh.read().replace("PKGNAME", pkg)
+    with open(p, "w") as fh:
+        fh.write(txt)
+    return p
+
+
+def cc_run(ctx, binp, test, label, replay=None):
+    env = {"VERIF_SEED": ctx.seed, "VERIF_N": ctx.budget(1, 6), "VERIF_OUT": ctx.work, "VERIF_REPO": REPO}
+    if replay:
+        env["VERIF_CC_REPLAY"] = replay
+    rc, out = ctx.run_cmd([binp, "-test.run", "^%s$" % test, "-test.count=1", "-test.timeout=900s"], timeout=1000, env=env)
+    return label, rc, out
+
+
+def cc_side(ctx, res, replay=None):
+    """nsqlookupd and nsqadmin answer through the same internal/http_api envelope (Decorate, V1, PlainText,
+    RespondV1): the same leg on their httpServer values and listeners. Runs in a thread next to the nsqd legs.
+    (C15 / C18 are other properties; this is part of C10's check because the shared code is C10's.)"""
+    for pkg, f, test, label in (("nsqlookupd", "e3/concur_lookupd_test.go", "TestVerifE3HTTPConcurrentLookupd", "nsqlookupd"),
+                                ("nsqadmin", "e3/concur_admin_test.go", "TestVerifE3HTTPConcurrentAdmin", "nsqadmin")):
+        b = ctx.go_test_binary(pkg, [f, cc_core(ctx, pkg)], "e3cc_" + pkg)
+        if not b:
+            res.append((label, None, "harness %s does not compile against the current tree" % f))
+            continue
+        res.append(cc_run(ctx, b, test, label, replay))
+
+
+def cc_report(ctx, label, rc, out, corr_broken):
+    """ORACLE-FAIL / REPLAY lines of one concurrency-leg run -> verdict."""
+    if rc is None:
+        ctx.broken_ties.append(out)
+        corr_broken.append("concurrency harness build (%s)" % label)
+        return
+    fails, okl = e3.harness_lines(ctx, out, "concur-" + label)
+    replays = {}
+    for l in out.splitlines():
+        m = re.match(r"REPLAY (\S+) (.*)", l)
+        if m:
+            replays.setdefault(m.group(1), []).append(m.group(2))
+    what = {}
+    for l in fails:
+        m = re.match(r"ORACLE-FAIL key=(\S+) req=- what=(.*)", l)
+        if m:
+            what.setdefault(m.group(1), []).append(m.group(2))
+    for key, texts in what.items():
+        lines = replays.get(key, [])
+        # the deterministic pair (if any) first: it is the one `./check C10 --replay` re-executes
+        det = [x for x in lines if " pair " in x]
+        replay = "".join("# %s\n" % t[:900] for t in texts[:6])
+        replay += "# re-execute: ./check C10 --replay <this file>  (the `pair` lines are deterministic; `direct` / `listener` lines\n"
+        replay += "# describe a scheduling-dependent run and are informative only)\n"
+        replay += "\n".join(det + [x for x in lines if x not in det]) + "\n"
+        first = texts[0]
+        for t, x in zip(texts, lines):
+            if " pair " in x:
+                first = t
+                break
+        ctx.violation(key, first[:700], replay)
+    if "panic:" in out or "fatal error:" in out:
+        ctx.violation("http-concurrent-panic", "the %s process died while serving concurrent HTTP requests" % label, out[-4000:])
+    elif (rc != 0 and not fails) or (not okl and not fails):
+        ctx.log("concurrency harness (%s) failed (rc=%s):\n%s" % (label, rc, out[-3000:]))
+        corr_broken.append("concurrency harness %s exit %s" % (label, rc))
+    for l in okl:
+        m = re.search(r"ORACLE-OK concur (\S+) requests=(\d+) judged-pairs=(\d+)", l)
+        if m:
+            ctx.evaluations += int(m.group(2)) + int(m.group(3))
+            ctx.corr.setdefault("concurrent", {})[m.group(1)] = l
+            ctx.count_case("concur %s seed %s" % (m.group(1), ctx.seed), nontrivial=True)
+    for l in out.splitlines():
+        if l.startswith("UNSTABLE "):
+            ctx.log("concurrency leg: lone answers moved during the run, not judged: " + l[:600])
+            ctx.corr.setdefault("concurrent_unstable", []).append(l[:600])
+    if ctx.replay_in:
+        print("\n".join(l[:1200] for l in out.splitlines() if l.startswith(("ORACLE", "REPLAY", "HIST pair", "HIST replay"))))
 
 
 def audit_leg(ctx, binp, corr_broken):
@@ -176,8 +260,17 @@ def run(ctx):
         "correspondence harness harness/e3/http_test.go (real httpServer.ServeHTTP on constructed requests; a "
         "smoke set through the real listener; white-box broker snapshot); response rendering (V1/PlainText)",
         "the TCP side of the equivalence theorems is the C09 model, itself tied by Nsq.Tie.Proto and the C09 harness",
+        "translator kind pkgvars (tools/go2lean/kind_pkgvars.go: package-level variables a function refers to, resolved by "
+        "go/types, closed under static calls inside the package / file; calls through function values are not followed)",
+        "concurrently served requests: state shared below the package level of the standard library (encoding/json, net/http "
+        "buffers) is trusted; the Go memory model for the broker fields the handlers read under the broker's own locks",
     ]
     ctx.assumptions += [
+        "independence of concurrently served requests: in the model the answer is a function of (options, broker, request); "
+        "concurrent_answers_own / concurrent_equals_alone (Nsq.Props.C10Conc) assume that the rendered answer of a request lives "
+        "in a request-local slot between encoding and writing (hypothesis `inj`; pooled_slot_full_false is the witness without it). "
+        "The hypothesis is carried by the tie Nsq.Tie.HttpShared (no mutable package-level variable in reach of internal/http_api "
+        "and the handlers of nsqd/http.go) and by the concurrency leg (oracle: every answer = the answer served alone), not proved",
         "no_500 / no_500_complete: holds for healthy=true; /ping answers 500 while nsqd.IsHealthy() is false (backend write error)",
         "no_500_complete: the request is complete (declared length = bytes that arrive, or chunked): an interrupted body is "
         "answered 500 by /pub, text /mpub and PUT /config (read-error branch, not modelled; observed on the real listener "
@@ -208,8 +301,15 @@ def run(ctx):
                 "their format, divergent cases included); size limits on accepted publishes; listener smoke test. Audit round 7: "
                 "`httpb` histories (bodies up to 100 x max-body-size on every endpoint, counting reader): status, bytes of body "
                 "consumed, broker; oracle: no handler consumes more than max(max-msg-size,max-body-size)+1 bytes; interrupted "
-                "requests on the real listener")
+                "requests on the real listener. Concurrency leg (TestVerifE3HTTPConcurrent*): 46 state-preserving requests "
+                "covering every kind of answer (JSON documents of 1 B - 8 KB, every error status, raw text, empty) on a quiescent nsqd "
+                "(12 topics x 2 channels); all ordered pairs x 3 park points of a ResponseWriter that parks its handler (first Header(), "
+                "WriteHeader, first Write) while the other request is served in between, under GOMAXPROCS(1), + a seeded sample with 1-3 "
+                "requests in between; 12 goroutines calling ServeHTTP with yielding recorders; 12 keep-alive clients on the real listener; "
+                "the same on nsqlookupd and nsqadmin. Oracle (model-free): status, both headers and body equal the answer the same request "
+                "gets when served alone; JSON content type => well-formed JSON")
     gen_ok, _ = ctx.gen("e3_proto")
+    ctx.gen("e3_shared")  # package-level variables in reach of internal/http_api and the HTTP handlers (Tie.HttpShared)
     ctx.gen("e3_conns")   # tcpServer.Handle's conns.Store vs the type assertions of GetStats / Close (Tie.ConnsStats)
     ok, log = ctx.lean_build(TIE + PROPS)
     if not ok:
@@ -219,11 +319,18 @@ def run(ctx):
         ctx.leanchecker(PROPS)
     corr_broken = []
     ctx.build_driver("e3")
-    binp = ctx.go_test_binary("nsqd", HARNESS, "e3http")
+    binp = ctx.go_test_binary("nsqd", HARNESS + [cc_core(ctx, "nsqd")], "e3http")
+    conc_replay = None
+    if ctx.replay_in and any(l.startswith("concur ") for l in open(ctx.replay_in).read().splitlines()):
+        conc_replay = os.path.abspath(ctx.replay_in)
+    side_res = []
+    side = threading.Thread(target=cc_side, args=(ctx, side_res, conc_replay))
+    if not ctx.replay_in or conc_replay:
+        side.start()   # nsqlookupd / nsqadmin concurrency legs: own binaries, next to the nsqd legs
     if not binp:
         ctx.broken_ties.append("harness harness/e3 does not compile against the current tree")
         corr_broken.append("harness build")
-    else:
+    elif not conc_replay:
         corpus = os.path.join(ctx.work, "corpus")
         os.makedirs(corpus, exist_ok=True)
         n = 0
@@ -264,7 +371,14 @@ def run(ctx):
             if ctx.replay_in:
                 for o, a, b in zip(ops, impl, model):
                     print("op    %s\n impl  %s\n model %s" % (o[:400], a[:600], b[:600]))
-    if binp:
+    if binp and (not ctx.replay_in or conc_replay):
+        # concurrently served requests (seeded C10-m9): parked-writer pairs, concurrent ServeHTTP, real listener
+        cc_report(ctx, *cc_run(ctx, binp, "TestVerifE3HTTPConcurrent", "nsqd", conc_replay), corr_broken)
+    if side.ident is not None:
+        side.join()
+        for label, rc, out in side_res:
+            cc_report(ctx, label, rc, out, corr_broken)
+    if binp and not conc_replay:
         full_leg(ctx, binp, corr_broken)
         audit_leg(ctx, binp, corr_broken)
     e3.halfopen_leg(ctx, corr_broken)   # /stats while TCP connections have not completed the protocol magic
